@@ -11,7 +11,8 @@
    the loop's Parent; without it loop_tag can dangle: heap-use-after-free) and
    findings/D73 (an inline if re-opened by a '}' inside a value is not validated and
    keeps nothing of the partial attribute scan) and findings/D75 (an inline if whose
-   start id does not fit 8 bits is dropped).
+   start id does not fit 8 bits is dropped) and findings/D91 (a <loop> opened while more than
+   255 tags are open is left as text: Level is 8 bits wide, see TparseLevels.v).
 
    Representation.
    * offsets are [nat] (SizeT; texts shorter than 2^32 units), code units and the
@@ -652,7 +653,8 @@ Section Parse.
       let end_offset := snd mo in
       bind (skip_ne 106 tpp_MultiLineLastChar offset end_offset) (fun offset =>
         let st1 := with_finder st mo in
-        if offset <? end_offset then
+        (* findings/D91: Level is 8 bits wide; a loop opened while more than 255 tags are open is left as text *)
+        if (offset <? end_offset) && (length (ps_stack st) <=? 255) then
           let l0 := mkL loop_offset 0 0 0 0 0 0 0 (t8 (length (ps_stack st))) (mkV 0 0 0 0) (ps_chain st) in
           bind (parse_loop_attributes offset l0) (fun l1 =>
           bind (csub 107 (offset + tpp_MultiLineSuffixLength) loop_offset) (fun d =>
